@@ -56,7 +56,7 @@ func Get(obj map[string]interface{}, expression string) ([]interface{}, error) {
 
 		// parse json back into a Go primitive
 		var value interface{}
-		err = yaml.Unmarshal(jsonBytes, &value)
+		err = yaml.Unmarshal(escapeForYAML(jsonBytes), &value)
 		if err != nil {
 			return nil, fmt.Errorf("failed to unmarshal jsonpath result: %w", err)
 		}
@@ -148,12 +148,35 @@ func Set(obj map[string]interface{}, expression string, value interface{}) (int,
 	klog.V(7).Infof("jsonpath.Set output as json:\n%s", jsonBytes)
 
 	// parse json back into the input map
-	err = yaml.Unmarshal(jsonBytes, &obj)
+	err = yaml.Unmarshal(escapeForYAML(jsonBytes), &obj)
 	if err != nil {
 		return 0, fmt.Errorf("failed to unmarshal jsonpath result: %w", err)
 	}
 
 	return len(nodes), nil
+}
+
+// escapeForYAML rewrites the characters that JSON allows raw inside strings
+// but yaml.v3 either refuses (U+007F, C1 controls, U+FFFE, U+FFFF) or folds
+// as a line break (U+0085) into \uXXXX escapes, which both formats read as
+// the same character. Outside strings JSON text is ASCII, so only string
+// contents are affected.
+func escapeForYAML(jsonBytes []byte) []byte {
+	var out []byte
+	for i, r := range string(jsonBytes) {
+		if r == 0x7f || (r >= 0x80 && r <= 0x9f) || r == 0xfffe || r == 0xffff {
+			if out == nil {
+				out = append(out, jsonBytes[:i]...)
+			}
+			out = append(out, fmt.Sprintf("\\u%04x", r)...)
+		} else if out != nil {
+			out = append(out, string(r)...)
+		}
+	}
+	if out == nil {
+		return jsonBytes
+	}
+	return out
 }
 
 func toArrayOfNodes(obj []interface{}) ([]*ajson.Node, error) {
